@@ -15,7 +15,7 @@ import fixtures
 import render
 from common import Check, b64, harness, seed, tlc, tlc_ok
 
-CONST_NONE = {"History": "FALSE", "MaxLen": "0", "EmitMode": '"none"', "SampleMod": "1", "SamplePick": "0", "ValidOnly": "FALSE", "MaxInc": "0"}
+CONST_NONE = {"History": "FALSE", "MaxLen": "0", "EmitMode": '"none"', "SampleMod": "1", "SamplePick": "0", "ValidOnly": "FALSE", "MaxInc": "0", "OneKw": "FALSE"}
 
 
 def flatten(forest):
@@ -166,6 +166,13 @@ def main(tier, only_replay=None):
     if r.mbt:
         chk.sample({"random_walk_doc": [(i["t"], i["k"]) for i in r.mbt[-1]["doc"]], "predicted": r.mbt[-1]["out"]["v"]})
     a3, n3 = run_docs(chk, r.mbt, "s")
+    # 3a. random walks in which "(", ")" and file boundaries are as likely as a keyword
+    c = dict(CONST_NONE, History="TRUE", MaxLen="24", EmitMode='"docs"', MaxInc="2", OneKw="TRUE")
+    r = tlc_ok(tlc("JSightTree", "Tree_docs.cfg", consts=c, simulate=nsim, depth=30, tlc_seed=sd + 2, workers=8 if thorough else 4,
+                   timeout=3000), "JSightTree simulate (parenthesis-rich)")
+    chk.add_tlc(r)
+    a5, n5 = run_docs(chk, r.mbt, "q")
+    a3, n3 = a3 + a5, n3 + n5
     # 3b. random walks that stay acceptable: long well-nested documents whose forest is rebuilt by the
     #     MACRO/PASTE expansion stage (same resolution code, second use)
     c = dict(CONST_NONE, History="TRUE", MaxLen="30", EmitMode='"docs"', ValidOnly="TRUE", MaxInc="2")
